@@ -51,6 +51,10 @@ type genConfig struct {
 	// TopLevelList makes program() also keep the top-level statements separately
 	// (fragment cutting, C10); no top-level return is generated before the end.
 	NoTry bool
+	// Share adds statements that exercise structures shared between VMs of one
+	// Bytecode: errors thrown in module files and resolved with trace(), writes
+	// to builtin-module values, calls through pooled child VMs (C08).
+	Share bool
 }
 
 type gen struct {
@@ -69,6 +73,10 @@ type gen struct {
 	Top      []string // top-level statements
 	features map[string]bool
 	inModule bool
+	// noGrow: while set, string and array expressions reference no variable and
+	// call no function, so that an assignment cannot double its target
+	// (exponential growth inside loops).
+	noGrow bool
 }
 
 func newGen(t *sim.Tape, c genConfig) *gen {
@@ -154,6 +162,9 @@ func (g *gen) floatLit() string {
 }
 
 func (g *gen) strLit() string {
+	if g.cfg.Hosts && !g.inModule && g.t.Bool(1, 6) {
+		return "WID"
+	}
 	if g.cfg.Consts && g.t.Bool(1, 5) {
 		return []string{`""`, `"\x00\xff"`, `"日本"`, "`raw\\n`", `"a\tb\n"`}[g.t.Draw(5)]
 	}
@@ -169,8 +180,9 @@ func (g *gen) expr(t typ, d int) string {
 	if d > 0 && g.t.Bool(1, 40) {
 		t = typ(g.t.Draw(int(tErr) + 1))
 	}
+	frozen := g.noGrow && (t == tStr || t == tArr || t == tMap)
 	if d <= 0 || g.t.Bool(1, 3) {
-		if v, ok := g.pickVar(t); ok && g.t.Bool(3, 4) {
+		if v, ok := g.pickVar(t); ok && g.t.Bool(3, 4) && !frozen {
 			return v.name
 		}
 		return g.leaf(t)
@@ -307,6 +319,9 @@ func (g *gen) leaf(t typ) string {
 
 // callExpr calls a visible function (or module function) returning t.
 func (g *gen) callExpr(t typ, d int) string {
+	if g.noGrow {
+		return ""
+	}
 	var cands []gvar
 	for _, v := range g.vars(tFn) {
 		if v.ret == t {
@@ -454,6 +469,9 @@ func (g *gen) stmt(lvl int) string {
 	if g.inModule {
 		w[0] = 0
 	}
+	if g.cfg.Share && !g.inModule && g.t.Bool(1, 5) {
+		return g.shareStmt(lvl)
+	}
 	switch g.t.Pick(w...) {
 	case 0:
 		return g.logStmt(lvl)
@@ -475,6 +493,8 @@ func (g *gen) stmt(lvl int) string {
 			return g.logStmt(lvl)
 		}
 		v := cands[g.t.Draw(len(cands))]
+		g.noGrow = true
+		defer func() { g.noGrow = false }()
 		switch {
 		case v.t == tInt && g.t.Bool(1, 2):
 			return ind(lvl) + v.name + " " + []string{"+=", "-=", "*="}[g.t.Draw(3)] + " " + g.expr(tInt, 2) + "\n"
@@ -598,6 +618,33 @@ func (g *gen) stmt(lvl int) string {
 			return g.logStmt(lvl)
 		}
 		return g.importStmt(lvl)
+	}
+}
+
+// shareStmt exercises a structure that VMs of one Bytecode share.
+func (g *gen) shareStmt(lvl int) string {
+	in := ind(lvl)
+	e := g.fresh("err")
+	switch g.t.Draw(5) {
+	case 0: // error thrown inside a fixed module file, position resolved without fmt
+		return in + "try {\n" + in + "\timport(\"modB\").boom(" + g.strLit() + ")\n" + in + "} catch " + e + " {\n" + in + "\tlog(" + e + ".Message, trace(" + e + "))\n" + in + "}\n"
+	case 1: // error thrown in main, resolved through fmt as well
+		return in + "try {\n" + in + "\tthrow " + g.strLit() + "\n" + in + "} catch " + e + " {\n" + in + "\tlog(trace(" + e + "), sprintf(\"%+v\", " + e + "))\n" + in + "}\n"
+	case 2: // write to a builtin-module value, read it back
+		m := g.fresh("m")
+		return in + m + " := import(\"host\")\n" + in + m + ".arr[" + fmt.Sprint(g.t.Draw(3)) + "] = len(WID) * " + fmt.Sprint(1+g.t.Draw(9)) + "\n" + in + m + ".map[WID] = " + g.expr(tInt, 1) + "\n" + in + "log(" + m + ".arr, " + m + ".map)\n"
+	case 3: // error inside a generated module, if any
+		if len(g.gmods) > 0 {
+			m := g.gmods[g.t.Draw(len(g.gmods))]
+			for _, f := range m.fns {
+				if f.name == "fail" {
+					return in + "try {\n" + in + "\timport(\"" + m.name + "\").fail()\n" + in + "} catch " + e + " {\n" + in + "\tlog(trace(" + e + "))\n" + in + "}\n"
+				}
+			}
+		}
+		fallthrough
+	default: // callback through a pooled child VM (strings.Map acquires and releases)
+		return in + "log(import(\"strings\").Map(func(c) { return c + len(WID) }, " + g.strLit() + "))\n"
 	}
 }
 
